@@ -310,6 +310,9 @@ def _worker(item):
 
 # call shapes that differ in channel order / channel set / block length / reused instances: explored to depth 3 in every tier
 ORDER_SUB = [4, 7, 8, 12, 14, 17, 23, 27, 28]
+# call shapes that set the SAME property names on root / group / channel to different values and types (menus 1, 2 vs 6): to depth 3
+# in every tier, so that a property goes A -> B -> A (what a "do not repeat what the file already holds" cache gets wrong)
+PROP_SUB = [1, 2, 9, 10, 17]
 
 
 def run(ctx):
@@ -323,6 +326,7 @@ def run(ctx):
         items = [it for it in items if it[2] % 3] + [(f, 3, ai, ctx.seed) for ai in range(0, nassign, 3) for f in range(len(shapes))]
     else:
         items += [(f, 3, ai, ctx.seed, ORDER_SUB) for ai in range(0, nassign, 4) for f in ORDER_SUB]
+    items += [(f, 3, ai, ctx.seed, PROP_SUB) for ai in range(0, nassign, 4) for f in PROP_SUB]
     m = merge(ctx.map(_worker, items, chunksize=2) + ctx.map(_copy_worker, [(ai, ctx.seed) for ai in range(nassign)]) +
               ctx.map(_big_worker, [(ai, ctx.seed) for ai in range(nassign)]))
     c = m['counters']
